@@ -23,6 +23,7 @@ type ItemScript struct {
 	K   int  `json:"k"`             // 1-based index of the first succeeding attempt (> budget: never)
 	FBE bool `json:"fbe,omitempty"` // the fallback (if installed) fails
 	Nil bool `json:"nil,omitempty"` // a successful attempt returns a nil value (a zero Result is then the item's genuine outcome)
+	FBRes bool `json:"fb_res,omitempty"` // the rescuing fallback hands its value back as a flyt.Result (with a nil error) instead of a bare value
 	EVal bool `json:"eval,omitempty"` // a successful attempt (or rescuing fallback) returns a value whose Go type implements error: still a value
 }
 
@@ -673,6 +674,9 @@ func (b *batchRun) fallback(prepRes any, err error) (any, error) {
 			return flyt.NewResult(&bOut{b.nonce, i, 0, true}), e
 		}
 		return nil, e
+	}
+	if b.script(i).FBRes {
+		return flyt.NewResult(b.okVal(i, 0, true)), nil // the rescuing fallback answers with a Result of its own: that Result is the item's outcome
 	}
 	return b.okVal(i, 0, true), nil
 }
